@@ -442,3 +442,56 @@ func VerifC17Snapshot() { verifC17RunOps(3+verifrt.Tier(), 1, false, false, true
 // compacted indexes answer ErrCompacted, the snapshot index answers the snapshot term, everything from the
 // new first index on is still what was saved - also after reopen.
 func VerifC17RotateCompact() { verifC17RunOps(2+verifrt.Tier(), 1, true, false, true) }
+
+// VerifC17SlotTableFull: the entry file's slot table (maxNumEntries slots) is filled to within two, one or
+// zero free slots by one large append, optionally followed by up to two more entries (which roll the file
+// when the table is full) and a reopen; the queries around the end of the log - last index, term of the
+// last entries, term and entries beyond the end - answer from the saved sequence.
+func VerifC17SlotTableFull() {
+	defer verifCleanup()
+	config.EntryFileRWType = config.DefaultEntryFileRWType
+	v := &verifC17{dir: verifDir()}
+	v.open()
+	n := maxNumEntries - verifrt.Choose("free", 3)
+	batch := make([]raftpb.Entry, n)
+	for j := range batch {
+		batch[j] = raftpb.Entry{Index: uint64(j + 1), Term: 7}
+	}
+	batch[n-1].Term = verifrt.Uint64("lastTerm")
+	verifrt.Assume(batch[n-1].Term >= 7)
+	hs := raftpb.HardState{Term: 301, Vote: 1, Commit: 1}
+	verifrt.Assert(v.rds.Save(&hs, batch, nil) == nil, "Save failed")
+	v.model = batch
+	extra := verifrt.Choose("extra", 3)
+	for j := 0; j < extra; j++ {
+		e := raftpb.Entry{Index: uint64(len(v.model) + 1), Term: batch[n-1].Term, Data: []byte("x")}
+		verifrt.Assert(v.rds.Save(&hs, []raftpb.Entry{e}, nil) == nil, "Save failed")
+		v.model = append(v.model, e)
+	}
+	if len(v.rds.entryLog.files) > 0 {
+		verifrt.Reach("rotated")
+	}
+	if n == maxNumEntries && extra == 0 {
+		verifrt.Reach("exactly-full")
+	}
+	if verifrt.Bool("reopen") {
+		verifrt.Assert(v.rds.Close() == nil, "Close failed")
+		v.open()
+	}
+	last := uint64(len(v.model))
+	li, err := v.rds.LastIndex()
+	verifrt.Assert(err == nil && li == last, "LastIndex differs from the saved sequence")
+	fi, err := v.rds.FirstIndex()
+	verifrt.Assert(err == nil && fi == 1, "FirstIndex moved although nothing was compacted")
+	for _, i := range []uint64{1, uint64(n) - 1, uint64(n), last} {
+		t, err := v.rds.Term(i)
+		verifrt.Assert(err == nil && t == v.model[i-1].Term, "Term differs from the saved sequence")
+		ents, err := v.rds.Entries(i, i+1, math.MaxUint64)
+		verifrt.Assert(err == nil && len(ents) == 1 && verifSameEntry(ents[0], v.model[i-1]), "entry differs from the saved sequence")
+	}
+	_, err = v.rds.Term(last + 1)
+	verifrt.Assert(errors.Is(err, raft.ErrUnavailable), "Term beyond the end is not ErrUnavailable")
+	_, err = v.rds.Entries(last, last+2, math.MaxUint64)
+	verifrt.Assert(errors.Is(err, raft.ErrUnavailable), "Entries beyond the end is not ErrUnavailable")
+	verifrt.Reach("end")
+}
